@@ -226,7 +226,7 @@ BOUNDS = {
     'quick': 'every schedule with <=1 preemption (<=2 for the two-thread one-message programs; four-thread programs: <=1 deviation from a '
              'round-robin scheduler, a deviation being a preemption or a non-default pick at a blocking point) at source-LINE granularity (mido/ports.py, '
              '_parser_queue.py and the device double; calls into parser/tokenizer/message code are atomic) of programs with 1-2 senders x 1-2 messages and 1-2 receivers using '
-             'receive / poll / iter_pending, on a lock-protected byte-wise device port, EchoPort, the IOPort wrapper over the '
+             'receive / poll / iter_pending (plus two senders alone with one more preemption), on a lock-protected byte-wise device port, EchoPort, the IOPort wrapper over the '
              'device port and a MultiPort over two EchoPorts; message contents (note, velocity) symbolic; the sender mutates its '
              'message after send() returned; ParserQueue with 2 concurrent put_bytes and a poller (here every line of parser.py and tokenizer.py is a yield point too)',
     'thorough': '<=2 preemptions for all programs (<=3 for the two smallest); 3 senders; 2 messages per sender with 2 receivers',
@@ -258,6 +258,11 @@ def JOBS(tier):
                 # pick costs like a preemption) instead of free choices at every blocking point
                 params['free_choices'] = False
             jobs.append((concurrent, params, {'cost': 10 ** nthreads, 'use_trace': False}))
+        # two senders racing on a fresh port, nobody receiving meanwhile (the port is drained afterwards):
+        # two threads only, so two preemptions are affordable
+        if kind != 'ioport':
+            jobs.append((concurrent, {'kind': kind, 'program': (2, 1, 0, 'none'), 'max_preempt': p + 1},
+                         {'cost': 800, 'use_trace': False}))
         # one more preemption for the two-thread programs
         for prog in PROGRAMS:
             if prog[0] + prog[2] == 2 and prog[1] == 1 and not (kind == 'multi' and prog[1] > 1):
